@@ -472,13 +472,20 @@ def apply_ghost(text, label, ghost, report):
         if kind in ("before", "after"):
             n, anchor = arg.split(" ", 1)
             lines = text.split("\n")
-            i = find_line(lines, anchor.strip(), int(n), label)
-            ind = re.match(r"\s*", lines[i]).group(0)
-            new = tag([ind + l for l in body])
-            if kind == "before":
-                lines[i:i] = new
+            if n == "all":
+                # every line with that text (at least one): inserted bottom-up so indices stay valid
+                hits = [k for k, l in enumerate(lines) if l.strip() == anchor.strip() and not l.endswith(TAG)]
+                if not hits:
+                    raise Undecided("lost anchor in %s: `%s`" % (label, anchor.strip()))
             else:
-                lines[i + 1:i + 1] = new
+                hits = [find_line(lines, anchor.strip(), int(n), label)]
+            for i in reversed(hits):
+                ind = re.match(r"\s*", lines[i]).group(0)
+                new = tag([ind + l for l in body])
+                if kind == "before":
+                    lines[i:i] = new
+                else:
+                    lines[i + 1:i + 1] = new
             text = "\n".join(lines)
     for kind, arg, body in secs:
         if kind == "attr":
